@@ -77,6 +77,9 @@ SPECS["C11"] = dict(
         "Woodpile.Props.C11.encode_layout",
         "Woodpile.Props.C11.len_eq",
         "Woodpile.Props.C11.nested_lawful",
+        "Woodpile.Props.C11.view_accepts",
+        "Woodpile.Props.C11.view_roundtrip",
+        "Woodpile.Props.C11.view_find",
         "Woodpile.Props.C11.reject_iff",
         "Woodpile.Props.C11.sorted_reject_iff",
     ],
